@@ -8,6 +8,7 @@ import (
 	"path/filepath"
 	"sort"
 	"strings"
+	"sync"
 
 	"golang.org/x/tools/go/packages"
 	"golang.org/x/tools/go/ssa"
@@ -67,6 +68,10 @@ func loadWorld(dir string, patterns []string, minPkgs int, overlay map[string][]
 		Tests:   false,
 		Overlay: overlay,
 	}
+	if len(overlay) > 0 && os.Getenv("HSDK_OVERLAY_MODE") == "allsyntax" {
+		// with an overlay, export data of dependents would be stale: type-check the whole import graph from source
+		cfg.Mode = packages.LoadAllSyntax
+	}
 	pkgs, err := packages.Load(cfg, patterns...)
 	if err != nil {
 		return nil, fmt.Errorf("packages.Load(%s): %w", dir, err)
@@ -91,7 +96,19 @@ func loadWorld(dir string, patterns []string, minPkgs int, overlay map[string][]
 		return nil, fmt.Errorf("type/load errors:\n  %s", strings.Join(errs, "\n  "))
 	}
 	prog, spkgs := ssautil.AllPackages(pkgs, ssa.BuilderMode(0))
-	prog.Build()
+	// build only the module's own packages (dependencies are used through their type information)
+	var wg sync.WaitGroup
+	for _, sp := range spkgs {
+		if sp == nil {
+			continue
+		}
+		wg.Add(1)
+		go func(sp *ssa.Package) {
+			defer wg.Done()
+			sp.Build()
+		}(sp)
+	}
+	wg.Wait()
 	w := &World{Dir: dir, Fset: fset, Pkgs: map[string]*packages.Package{}, Prog: prog, SSAPkgs: map[string]*ssa.Package{}, fns: map[string]*ssa.Function{}, modPaths: map[string]bool{}}
 	for i, p := range pkgs {
 		w.Pkgs[p.PkgPath] = p
